@@ -203,3 +203,44 @@ Qed.
 (* absent inputs give no summary: if the metric has no value, the record has no entry for it *)
 Lemma no_value_no_summary : forall d, metric_summary d None = None.
 Proof. reflexivity. Qed.
+
+(* ------------------------------------------------------------------ a summary exists IFF the metric has a value *)
+Lemma summary_iff_value : forall d v,
+  metric_summary d v = None <-> (v = None \/ v = Some PNoneV \/ v = Some (PArr [])).
+Proof.
+  intros d v. destruct v as [[q|l|]|]; cbn [metric_summary].
+  - split; [discriminate|intros [H|[H|H]]; discriminate].
+  - destruct l as [|x [|y r]]; split; try discriminate; try tauto; intros [H|[H|H]]; discriminate.
+  - split; tauto.
+  - split; tauto.
+Qed.
+Lemma vop_not_nonev : forall op a b, vop op a b <> Some PNoneV.
+Proof.
+  intros op a b. destruct a as [x|l|], b as [y|m|]; cbn [vop]; try discriminate.
+  - destruct (qop op x y); discriminate.
+  - destruct (opt_all _); discriminate.
+  - destruct (opt_all _); discriminate.
+  - destruct (zip_with _ _ _); [destruct (opt_all _)|]; discriminate.
+Qed.
+Lemma eval_not_nonev : forall e c p n, eval e c p n <> Some PNoneV.
+Proof.
+  intros e c p n. destruct e as [w f|z|op a b]; cbn [eval].
+  - destruct w; unfold field_of; [|destruct p|destruct n]; try discriminate;
+      match goal with |- context [assoc ?k ?d] => destruct (assoc k d) as [[]|] end; discriminate.
+  - discriminate.
+  - destruct (eval a c p n), (eval b c p n); try discriminate. apply vop_not_nonev.
+Qed.
+(* no summary IFF the metric has no value (an input missing / None / an undefined division) or the
+   value is an empty sample array; in particular a value that is exactly zero IS summarised *)
+Theorem summary_iff_inputs_present : forall d e c p n,
+  metric_summary d (eval e c p n) = None <-> (eval e c p n = None \/ eval e c p n = Some (PArr [])).
+Proof.
+  intros. rewrite summary_iff_value. pose proof (eval_not_nonev e c p n). tauto.
+Qed.
+Theorem scalar_ratio_present : forall c loss l e,
+  own c loss = Some (PNum l) -> own c "earned_premium" = Some (PNum e) -> ~ e == 0 ->
+  spec_ratio c loss = Some (PNum (inject_Z 100 * l / e)).
+Proof.
+  intros c loss l e H1 H2 H3. unfold spec_ratio. rewrite H1, H2. cbn [vop qop option_map].
+  destruct (Qeq_bool e 0) eqn:E; [apply Qeq_bool_iff in E; contradiction|reflexivity].
+Qed.
